@@ -295,6 +295,24 @@ def run_binary(case):
                     res.violate("result-is-operand-object", op=op)
         if partial:
             res.nontrivial = True
+    # chains of length zero: film.difference(*cutouts) with an empty list of cutouts is the polygon itself - as a *new* object
+    for meth in ("union", "intersection", "difference"):
+        a0 = A.points.copy()
+        res.count("programs")
+        try:
+            R = getattr(A, meth)()
+        except Exception as exc:  # noqa: BLE001
+            res.violate("operation-raises-on-representable-result", op=meth + "()", form="no-operands", detail={"a": case["a"], "msg": str(exc)[:150]})
+            continue
+        if R is A or np.shares_memory(R.points, A.points):
+            res.violate("result-aliases-operand", op=meth + "()")
+            continue
+        if not np.array_equal(pip(probes, R.points), pip(probes, a0)):
+            res.violate("membership-is-not-the-set-operation", op=meth + "()", form="no-operands", partial_overlap=False, detail={"a": case["a"]})
+        R.translate(dx=0.7, dy=-0.3, inplace=True)
+        R.name = "moved"
+        if not np.array_equal(A.points, a0) or A.name != "A":
+            res.violate("operand-mutated", op=meth + "()")
     res.outcome = "binary"
     return res
 
